@@ -4,7 +4,9 @@ import oracles_exec as ox
 from common import proof_stage
 from props.graphfacts import conclude, replay, run_graph_property  # noqa: F401
 
-THEOREMS = ["Rva.markLoop_own", "Rva.mark_reachable_owner", "Rva.mem_insNat"]
+THEOREMS = ["Rva.markLoop_own", "Rva.mark_reachable_owner", "Rva.mem_insNat",
+            "Rva.markLoop_closed", "Rva.mark_complete", "Rva.mark_sound", "Rva.body_is_reachable_set",
+            "Rva.markStep_body", "Rva.function_entries_are_call_targets"]
 
 
 def oracle(src, blk, rng):
@@ -18,10 +20,33 @@ def oracle(src, blk, rng):
 
 
 def run(res, tier, seed):
-    proof_ok = proof_stage(res, "Rva.Proofs.C11", THEOREMS)
+    proof_ok = proof_stage(res, "Rva.Proofs.C11b", THEOREMS, extra_modules=["Rva.Proofs.C11"])
     res.cov["rule"] = ("generated programs + corpus (several labels per entry, shared tails, recursion, multiple "
                        "returns, handlers with ret and uret); on the real finished graph: function entries = "
                        "called labels, body = reachable set (independent DFS), owners consistent, single exit "
                        "reached by every other return; traces diffed against the Lean model")
     first, corr = run_graph_property(res, tier, seed, "parse,cfg", oracle)
+    # hypothesis of `markStep_body` / `body_is_reachable_set` ("the walk finished within its fuel")
+    # is decided by the model for every generated program (`markAllDone`, stage `good`)
+    import random
+    from common import DRIVER, run_lines_isolated
+    from pipeline import pipe_req
+    from props.graphfacts import gen_programs
+    srcs = gen_programs(random.Random(seed), 120 if tier == "quick" else 2500)
+    good = run_lines_isolated(DRIVER, [pipe_req("good", [("m.s", s)]) for s in srcs], chunk=100, timeout=120)
+    tally = {"walk_finished": 0, "not_applicable": 0, "fuel_exhausted": 0}
+    bad_src = None
+    for s, blk in zip(srcs, good):
+        line = next((l for l in blk if l.startswith("MARKDONE")), "")
+        if line == "MARKDONE true":
+            tally["walk_finished"] += 1
+        elif line == "":
+            tally["not_applicable"] += 1
+        else:
+            tally["fuel_exhausted"] += 1
+            bad_src = bad_src or s
+    res.cov.setdefault("input_distribution", {})["markStep_body_hypothesis"] = tally
+    if bad_src is not None and first is None and corr is None:
+        corr = {"stage": "good (hypothesis 'walk finished' of theorem markStep_body does not hold)",
+                "source": bad_src, "impl_vs_model": []}
     conclude(res, "C11", first, corr, proof_ok, "no function whose body differs from its reachable set found")
